@@ -152,11 +152,13 @@ pub struct FaultCase {
     pub needs_probes: bool,
     /// repetition index (fresh coins)
     pub rep: usize,
+    /// byte positions of the tapped value that are flipped (default: byte 0)
+    pub tap_positions: Vec<usize>,
 }
 
 impl FaultCase {
     pub fn new(cfg_ix: usize, plan: FaultPlan, class: String, label: String) -> Self {
-        FaultCase { cfg_ix, plan, class, label, dead_send: DeadSend::Err, sched: SchedKind::RoundRobin, tap: None, expect_abort: vec![], scan_leak: false, needs_probes: false, rep: 0 }
+        FaultCase { cfg_ix, plan, class, label, dead_send: DeadSend::Err, sched: SchedKind::RoundRobin, tap: None, expect_abort: vec![], scan_leak: false, needs_probes: false, rep: 0, tap_positions: vec![0] }
     }
 }
 
@@ -178,10 +180,19 @@ pub fn exec_fault(cfg: &Config, fc: &FaultCase, record_probes: bool) -> FaultRun
     if let Some((site, index)) = fc.tap.clone() {
         let c = fc.plan.corrupt;
         let tc = tap_count.clone();
+        let positions = fc.tap_positions.clone();
         crate::hooks::install_tap(Some(Box::new(move |s, party, idx, value| {
             if party == Some(c) && s == site && (index == usize::MAX || index == idx) && !value.is_empty() {
-                value[0] ^= 1;
-                tc.set(tc.get() + 1);
+                let mut any = false;
+                for p in &positions {
+                    if let Some(b) = value.get_mut(*p) {
+                        *b ^= 1;
+                        any = true;
+                    }
+                }
+                if any {
+                    tc.set(tc.get() + 1);
+                }
             }
         })));
     }
@@ -277,6 +288,7 @@ pub fn observe(cfg: &Config, fc: &FaultCase, run: &FaultRun, pilot_alloc: &[usiz
         "inputs": cfg.inputs.iter().map(|v| bits(v)).collect::<Vec<_>>(),
         "p_eval": cfg.p_eval,
         "p_out": cfg.p_out,
+        "sent_online": (0..n).map(|p| ex.net.log.iter().any(|e| e.kind == EvKind::SendCall && e.party == p && adv::is_online_label(ex.net.label(e.label)))).collect::<Vec<_>>(),
         "leak": leak_obs(fc, run),
         "rep": fc.rep,
     })
